@@ -39,6 +39,24 @@ pub mod sched {
     pub fn set_warmup_regions(n: u64) {
         WARMUP.store(n, std::sync::atomic::Ordering::SeqCst);
     }
+    /// Wide regions (hundreds of items) cannot be explored at item level. With this switch the items are started in creation
+    /// order without choice points, and only the scheduling points INSIDE closures branch (deviation-bounded search: every
+    /// execution is the default one up to `bound` pre-emptions).
+    pub(crate) static FIXED_ITEM_ORDER: std::sync::atomic::AtomicBool = std::sync::atomic::AtomicBool::new(false);
+    /// > 0: at a scheduling point inside a closure only the first `window - 1` runnable entities (in creation order) and the
+    /// newest one are alternatives (a stated family, not all of them); 0 = all runnable entities.
+    pub(crate) static WINDOW: std::sync::atomic::AtomicUsize = std::sync::atomic::AtomicUsize::new(0);
+    pub fn set_wide_mode(fixed_item_order: bool, window: usize) {
+        FIXED_ITEM_ORDER.store(fixed_item_order, std::sync::atomic::Ordering::SeqCst);
+        WINDOW.store(window, std::sync::atomic::Ordering::SeqCst);
+    }
+    /// Before the process is ended because of a deadlock the description is written to the file named by VERIF_DEADLOCK_FILE.
+    fn note_deadlock(msg: &str) {
+        eprintln!("{}", msg);
+        if let Ok(p) = std::env::var("VERIF_DEADLOCK_FILE") {
+            let _ = std::fs::write(p, msg);
+        }
+    }
 
     #[derive(Default)]
     pub(crate) struct State {
@@ -53,6 +71,9 @@ pub mod sched {
         pub holders: HashMap<usize, Vec<u32>>,
         /// entities that opened a parallel region and wait for it to complete
         pub waiting_for_region: BTreeSet<u32>,
+        /// OS thread of every entity (the baton is handed over by unparking exactly the thread that gets it: regions of
+        /// hundreds of items would otherwise wake every waiting thread at every hand-over)
+        pub threads: HashMap<u32, std::thread::Thread>,
         pub active: bool,
         pub current: Option<u32>,
         pub next_id: u32,
@@ -95,7 +116,7 @@ pub mod sched {
             return;
         }
         let mut pick = 0usize;
-        if cands.len() > 1 {
+        if cands.len() > 1 && !FIXED_ITEM_ORDER.load(std::sync::atomic::Ordering::SeqCst) {
             if st.pos < st.prefix.len() {
                 pick = st.prefix[st.pos];
                 if pick >= cands.len() {
@@ -117,7 +138,9 @@ pub mod sched {
         {
             let mut g = STATE.lock().unwrap();
             assert!(g.is_none(), "nested sched::run");
-            *g = Some(State { active: true, current: Some(0), next_id: 1, prefix: prefix.to_vec(), bound: preemption_bound(), ..Default::default() });
+            let mut st = State { active: true, current: Some(0), next_id: 1, prefix: prefix.to_vec(), bound: preemption_bound(), ..Default::default() };
+            st.threads.insert(0, std::thread::current());
+            *g = Some(st);
         }
         ENTITY.with(|e| e.set(Some(0)));
         let r = catch_unwind(AssertUnwindSafe(f));
@@ -133,6 +156,24 @@ pub mod sched {
         }
     }
 
+    /// wake the thread of the entity that holds the baton now (called with the state locked, after `current` changed)
+    pub(crate) fn wake_current(st: &State) {
+        if let Some(t) = st.current.and_then(|c| st.threads.get(&c)) {
+            t.unpark();
+        }
+    }
+    /// block the calling thread until entity `me` holds the baton; takes and returns the state lock
+    pub(crate) fn wait_baton(mut g: std::sync::MutexGuard<'static, Option<State>>, me: u32) -> std::sync::MutexGuard<'static, Option<State>> {
+        loop {
+            if g.as_ref().unwrap().current == Some(me) {
+                return g;
+            }
+            drop(g);
+            std::thread::park();
+            g = STATE.lock().unwrap();
+        }
+    }
+
     pub fn is_active() -> bool {
         STATE.lock().unwrap().as_ref().map(|s| s.active).unwrap_or(false)
     }
@@ -141,7 +182,7 @@ pub mod sched {
     /// under ANY continuation of this schedule. The process is ended (the driver runs every execution in a process of its
     /// own, or names the execution in flight when a worker process dies) - an observation like any other.
     fn deadlock(st: &State) -> ! {
-        eprintln!("VERIF-DEADLOCK under the controlled scheduler: entities waiting for locks {:?}; holders {:?}; schedule so far {:?}", st.blocked, st.holders.iter().filter(|(_, v)| !v.is_empty()).collect::<Vec<_>>(), st.choices.iter().map(|c| c.0).collect::<Vec<_>>());
+        note_deadlock(&format!("VERIF-DEADLOCK under the controlled scheduler: entities waiting for locks {:?}; holders {:?}; schedule so far {:?}", st.blocked, st.holders.iter().filter(|(_, v)| !v.is_empty()).collect::<Vec<_>>(), st.choices.iter().map(|c| c.0).collect::<Vec<_>>()));
         std::process::abort();
     }
 
@@ -173,7 +214,8 @@ pub mod sched {
         if st.runnable.is_empty() || st.preemptions >= st.bound {
             return;
         }
-        let n = 1 + st.runnable.len();
+        let window = WINDOW.load(std::sync::atomic::Ordering::SeqCst);
+        let n = 1 + if window > 0 { st.runnable.len().min(window) } else { st.runnable.len() };
         let mut pick = 0usize;
         if st.pos < st.prefix.len() {
             pick = st.prefix[st.pos];
@@ -188,15 +230,14 @@ pub mod sched {
             return;
         }
         st.preemptions += 1;
-        let id = *st.runnable.iter().nth(pick - 1).unwrap();
+        // (with a window: the last alternative is the newest runnable entity, the others the oldest ones)
+        let id = if window > 0 && st.runnable.len() > window && pick == n - 1 { *st.runnable.iter().next_back().unwrap() } else { *st.runnable.iter().nth(pick - 1).unwrap() };
         st.runnable.remove(&id);
         st.runnable.insert(me);
         st.current = Some(id);
         st.order.push(id);
-        CV.notify_all();
-        while g.as_ref().unwrap().current != Some(me) {
-            g = CV.wait(g).unwrap();
-        }
+        wake_current(st);
+        let _g = wait_baton(g, me);
     }
 
     /// The calling entity found the lock at `addr` taken. Returns false when the holder is not an entity of this exploration
@@ -218,15 +259,13 @@ pub mod sched {
         // The holder waits for a parallel region it opened: with rayon's work stealing the thread of a waiting task runs other
         // pending tasks ON ITS OWN STACK - this very task among them - and std locks are not re-entrant: the run can hang.
         if let Some(h) = st.holders[&addr].iter().find(|h| st.waiting_for_region.contains(h)) {
-            eprintln!("VERIF-DEADLOCK under the controlled scheduler: entity {} holds the lock at {:#x} while it waits for a parallel region it opened, and entity {} - a task that rayon's work stealing may run on the holder's own thread - needs that lock ({}); schedule so far {:?}", h, addr, me, _what, st.choices.iter().map(|c| c.0).collect::<Vec<_>>());
+            note_deadlock(&format!("VERIF-DEADLOCK under the controlled scheduler: entity {} holds the lock at {:#x} while it waits for a parallel region it opened, and entity {} - a task that rayon's work stealing may run on the holder's own thread - needs that lock ({}); schedule so far {:?}", h, addr, me, _what, st.choices.iter().map(|c| c.0).collect::<Vec<_>>()));
             std::process::abort();
         }
         st.blocked.insert(me, addr);
         pick_next(st);
-        CV.notify_all();
-        while g.as_ref().unwrap().current != Some(me) {
-            g = CV.wait(g).unwrap();
-        }
+        wake_current(st);
+        let _g = wait_baton(g, me);
         true
     }
 
@@ -325,9 +364,8 @@ fn run_region<'a, T: Send + 'a>(thunks: Vec<Thunk<'a, T>>) -> (Vec<Option<T>>, V
                 // wait for the baton
                 {
                     let mut g = sched::STATE.lock().unwrap();
-                    while g.as_ref().unwrap().current != Some(id) {
-                        g = sched::CV.wait(g).unwrap();
-                    }
+                    g.as_mut().unwrap().threads.insert(id, std::thread::current());
+                    let _g = sched::wait_baton(g, id);
                 }
                 exec_order.lock().unwrap().push(i);
                 let r = catch_unwind(AssertUnwindSafe(t));
@@ -348,8 +386,9 @@ fn run_region<'a, T: Send + 'a>(thunks: Vec<Thunk<'a, T>>) -> (Vec<Option<T>>, V
                 if *rem == 0 {
                     st.runnable.insert(me);
                 }
+                st.threads.remove(&id);
                 sched::pick_next(st);
-                sched::CV.notify_all();
+                sched::wake_current(st);
             });
         }
         // the parent blocks until its region is complete and it is scheduled again
@@ -357,11 +396,9 @@ fn run_region<'a, T: Send + 'a>(thunks: Vec<Thunk<'a, T>>) -> (Vec<Option<T>>, V
         {
             let st = g.as_mut().unwrap();
             sched::pick_next(st);
-            sched::CV.notify_all();
+            sched::wake_current(st);
         }
-        while g.as_ref().unwrap().current != Some(me) {
-            g = sched::CV.wait(g).unwrap();
-        }
+        let mut g = sched::wait_baton(g, me);
         g.as_mut().unwrap().waiting_for_region.remove(&me);
     });
     if let Some(p) = panic_slot.into_inner().unwrap() {
